@@ -365,10 +365,15 @@ func (m nsIQMatcher) Match(p stanza.Packet, match *RouteMatch) bool {
 	if !ok {
 		return false
 	}
-	if iq.Payload == nil {
-		return false
+	if iq.Payload != nil {
+		return matchInArray(m, iq.Payload.Namespace())
 	}
-	return matchInArray(m, iq.Payload.Namespace())
+	// A payload whose type is not registered (ping, vCard, any application namespace) is
+	// decoded as a generic node: it has a namespace all the same.
+	if iq.Any != nil {
+		return matchInArray(m, iq.Any.Namespace())
+	}
+	return false
 }
 
 // IQNamespaces adds an IQ matcher, expecting both an IQ and a
